@@ -1,6 +1,7 @@
 package rules
 
 import (
+	"os"
 	"fmt"
 	"go/token"
 	"go/types"
@@ -509,6 +510,9 @@ func c05r4(c *core.Ctx) {
 				return
 			}
 			if v, isK := core.ConstInt(res(ret)[0]); !isK || v != 0 {
+				if os.Getenv("HCSA_DEBUG") != "" {
+					fmt.Fprintln(os.Stderr, "DEBUG releases-nothing: nonzero count on path", strings.Join(pa.Describe(p), " | "))
+				}
 				good = false
 			}
 			// the reader result of the failed Decrypt must not be stored as remainder
